@@ -73,6 +73,9 @@ def eval_api(run, r):
     if isinstance(out, tuple):
         rb = out
         run.hit("readback.tuple")
+        if not (len(out) == 3 and all(type(x) is int and 0 <= x <= 255 for x in out)):
+            run.violation("the returned tuple is not a colour (three ints in 0..255)", case, returned=repr(out))
+            return
     else:
         rb = r.get("rb_css")
         run.hit("readback.css")
@@ -121,8 +124,10 @@ def check(run):
             run.hit("spelling." + tk)
             api_cases.append((ts, bs, run.rng.randrange(2), run.rng.choice([0, 1, 1, 2]), run.rng.randrange(2)))
         res = p.map(w_api, api_cases, chunksize=4)
+        def _rgb3(v):
+            return isinstance(v, tuple) and len(v) == 3 and all(type(x) is int and 0 <= x <= 255 for x in v)
         certify([(tuple(r["out"]) if isinstance(r["out"], tuple) else tuple(r["rb_css"]), tuple(r["b"]), thresholds(r["case"][2], r["case"][4])[0])
-                 for r in res if "out" in r and (isinstance(r["out"], tuple) or r.get("rb_css"))])
+                 for r in res if "out" in r and (_rgb3(r["out"]) if isinstance(r["out"], tuple) else bool(r.get("rb_css")))])
         for r in res:
             eval_api(run, r)
             nontrivial = "out" in r and not (r.get("ok") and r.get("rb_own") == r.get("t"))
